@@ -15,7 +15,9 @@ CfgOf(e) == [proto |-> e.proto, enabled |-> e.enabled, maxel |-> e.maxel,
              nhdr |-> e.nhdr, enc |-> e.enc, grp |-> e.grp]
 (* scenarios of one group run the same exporter and script and differ in the exporter-option dimension only:
    the outcome must not depend on it (soft: believed when the whole group repeats it) *)
-Summary(mm) == [attempts |-> mm.n, ret |-> mm.ret, handled |-> Cardinality(mm.handled)]
+(* with a small export timeout of the whole call a retry may still slip out right at the deadline: the number of
+   attempts is then not part of the outcome *)
+Summary(mm) == [attempts |-> IF mm.cfg.cto # 0 THEN 0 ELSE mm.n, ret |-> mm.ret, handled |-> Cardinality(mm.handled)]
 Put(f, k, v) == [x \in (DOMAIN f) \cup {k} |-> IF x = k THEN v ELSE f[x]]
 Init == l = 1 /\ m = Fresh(NoCfg) /\ cur = -1 /\ grps = <<>>
 TStep == /\ l <= Len(Trace)
